@@ -16,7 +16,7 @@ def tri : P String := do
   let i ← pNat
   let j ← pNat
   match Tri.withVecs sub main sup with
-  | .error e => pure ("!" ++ toString e)
+  | .error e => pure ("!" ++ toString e ++ " !" ++ toString e)   -- with_vecs and with_vectors: the same guard
   | .ok t =>
     let other := Tri.transpose t
     let parts : List String := [
